@@ -1,5 +1,34 @@
 """Units `builtin_mod` (vm/builtin/mod.rs: typed argument poppers) and `builtin_vector` (vm/builtin/vector.rs) -- C14, C06."""
 
+# the model of Heap::put shared by the opaque-heap groups (DEREF / LIVE = uninterpreted views) and unit heap (concrete views)
+PUT_MODEL_TEMPLATE = '''    &&& x is Ptr ==> r == x && (forall|c: VCell| #[trigger] DEREF(h1, c) == DEREF(h0, c)) && (forall|c: VCell| #[trigger] LIVE(h1, c) == LIVE(h0, c))
+    &&& !(x is Ptr) ==> r is Ptr && DEREF(h1, r) == x && LIVE(h1, r)
+    &&& !(x is Ptr) && !(x is Symbol) ==> !LIVE(h0, r)
+    &&& forall|c: VCell| #[trigger] LIVE(h0, c) ==> LIVE(h1, c) && DEREF(h1, c) == DEREF(h0, c)
+    &&& forall|c: VCell| !(c is Ptr) ==> #[trigger] DEREF(h1, c) == DEREF(h0, c)'''
+
+# the model of Heap::get_at_index_mut (one cell handed out for writing), shared the same way; LEN = number of cells
+GIM_MODEL_TEMPLATE = '''    &&& r0 == DEREF(h0, VCell::Ptr(p)) && DEREF(h1, VCell::Ptr(p)) == r1
+    &&& LEN(h1) == LEN(h0)
+    &&& forall|c: VCell| #[trigger] LIVE(h1, c) == LIVE(h0, c)
+    &&& forall|q: usize| q != p ==> #[trigger] DEREF(h1, VCell::Ptr(q)) == DEREF(h0, VCell::Ptr(q))
+    &&& forall|c: VCell| !(c is Ptr) ==> #[trigger] DEREF(h1, c) == DEREF(h0, c)'''
+
+def inline_model(template, names, subst):
+    """the conjuncts of a model template as a comma-separated ensures list, with the view functions and the parameters substituted"""
+    import re as _re
+    t = template
+    for k, v in names.items():
+        t = t.replace(k, v)
+    conj = [c.strip() for c in t.split('&&&') if c.strip()]
+    out = []
+    for c in conj:
+        for k, v in subst.items():
+            c = _re.sub(r'\b%s\b' % k, v, c)
+        out.append(c)
+    return ',\n            '.join(out)
+
+
 MOD_PRELUDE = r'''
 use crate::vm::stack::Stack;
 use crate::vm::heap::Heap;
@@ -15,16 +44,15 @@ pub assume_specification [Heap::get_as_cell] (h: &Heap, v: &VCell) -> (r: Cell);
 /// allocation through the (here opaque) heap: nothing is known about the result
 /// c is a pointer to an allocated cell
 pub uninterp spec fn heap_live(h: Heap, c: VCell) -> bool;
-/// (proved in unit `heap` against the real body) a pointer is passed through and nothing changes; any other value is
-/// boxed in a cell that was free and now is allocated and holds it; every other cell keeps its meaning and its liveness
+/// What `Heap::put(x)` does, over the two views `deref` (what a cell designates) and `live` (allocated): a pointer is passed through
+/// and nothing changes; any other value ends up in an allocated cell that holds it -- a cell that was free before, except for a
+/// symbol whose name is already interned, which is answered with its existing cell; allocated cells never change and stay allocated.
+/// Unit `heap` proves this model from the contract it verifies against the real body (lemma_put_model, same text over the concrete views).
+pub open spec fn put_model(h0: Heap, h1: Heap, x: VCell, r: VCell) -> bool {
+PUT_MODEL_BODY
+}
 pub assume_specification<T: Into<VCell> + Clone> [Heap::put] (h: &mut Heap, v: T) -> (r: VCell)
-    ensures <T as vstd::std_specs::convert::IntoSpec<VCell>>::obeys_into_spec() ==> ({
-        let x = <T as vstd::std_specs::convert::IntoSpec<VCell>>::into_spec(v);
-        &&& x is Ptr ==> r == x && *final(h) == *old(h)
-        &&& !(x is Ptr) ==> r is Ptr && heap_deref(*final(h), r) == x && !heap_live(*old(h), r) && heap_live(*final(h), r)
-        &&& forall|c: VCell| c != r ==> #[trigger] heap_deref(*final(h), c) == heap_deref(*old(h), c)
-        &&& forall|c: VCell| #[trigger] heap_live(*old(h), c) ==> heap_live(*final(h), c)
-    });
+    ensures <T as vstd::std_specs::convert::IntoSpec<VCell>>::obeys_into_spec() ==> put_model(*old(h), *final(h), <T as vstd::std_specs::convert::IntoSpec<VCell>>::into_spec(v), r);
 pub assume_specification<T: Into<VCell> + Clone> [Heap::maybe_put] (h: &mut Heap, v: T) -> (r: VCell);
 /// Vm::pop (run.rs): pops one cell and reads it through the heap (a by-value copy of what the cell designates, not the cell)
 pub assume_specification [Vm::pop] (vm: &mut Vm) -> (r: Result<VCell, Error>)
@@ -112,6 +140,8 @@ pub proof fn axiom_into_vec() ensures forall|x: Vec<VCell>| #[trigger] into_vec:
 pub assume_specification<T: Into<Vec<VCell>>> [VCell::vector] (x: T) -> (r: VCell)
     ensures r matches VCell::Vector(v) && vector_view(*v) == into_vec(x);
 '''
+
+MOD_PRELUDE = MOD_PRELUDE.replace('PUT_MODEL_BODY', PUT_MODEL_TEMPLATE.replace('DEREF', 'heap_deref').replace('LIVE', 'heap_live'))
 
 UNITS = [
     {
